@@ -1725,6 +1725,11 @@ post_t * instance_t::parse_post(char *          line,
         }
       }
 
+      // The posting's own amount counts toward the asserted balance; subtract it
+      // before restricting to the asserted commodity.
+      if (! post->amount.is_null())
+        diff -= post->amount.strip_annotations(keep_details_t());
+
       // If amt has a commodity, restrict balancing to that. Otherwise, it's the blanket '0' and
       // check that all of them are zero.
       if (amt.has_commodity()) {
@@ -1755,7 +1760,6 @@ post_t * instance_t::parse_post(char *          line,
         }
       } else {
         // balance assertion
-        diff -= post->amount.strip_annotations(keep_details_t());
         if (! no_assertions && ! diff.is_zero()) {
           balance_t tot = (-diff + amt).strip_annotations(keep_details_t());
           DEBUG("textual.parse", "Balance assertion: off by " << diff << " (expected to see " << tot << ")");
